@@ -37,6 +37,10 @@ pub struct CliCase {
     /// validate: write the report to a file (--output) instead of stdout
     #[serde(default)]
     pub report_file: bool,
+    /// mux: where --output points. 0 = a file in the scratch directory, 1 = /dev/full (opens,
+    /// every write fails with ENOSPC), 2 = a path inside a directory that does not exist
+    #[serde(default)]
+    pub out_kind: u8,
 }
 
 impl CliCase {
@@ -166,11 +170,16 @@ pub fn eval(c: &CliCase, obs: &mut Obs) -> Vec<Violation> {
     let vpath = put("video.hex", &c.video);
     let apath = put("audio.hex", &c.audio);
     let ipath = put("input.bin", &c.info);
-    let opath = format!("{}/out.mp4", dir);
+    let opath = match c.out_kind {
+        1 if std::path::Path::new("/dev/full").exists() => "/dev/full".to_string(),
+        2 => format!("{}/no/such/dir/out.mp4", dir),
+        _ => format!("{}/out.mp4", dir),
+    };
+    let unwritable = opath != format!("{}/out.mp4", dir);
     // the output path may already hold an older (longer or shorter) file: re-running the tool
     // with the same --output must still leave exactly the new file there
     let stale = crate::util::fnv(format!("{:?}", c).as_bytes()) % 3;
-    if stale != 2 {
+    if stale != 2 && !unwritable {
         let old: Vec<u8> = if stale == 0 { vec![0x5a; 96 * 1024] } else { b"old short".to_vec() };
         let _ = std::fs::write(&opath, &old);
         let _ = std::fs::write(format!("{}/report.json", dir), &old);
@@ -293,7 +302,9 @@ pub fn eval(c: &CliCase, obs: &mut Obs) -> Vec<Violation> {
                 ops.push(Op::Finish(FinishKind::FinishStats));
                 let h = History { cfg, ops };
                 let (ex, sink) = crate::exec::run(&h, &crate::exec::ExecOpts::default());
-                lib_ok = matches!(ex.build, Res::Ok) && ex.results.iter().all(|r| r.is_ok());
+                // an output that cannot be written is an invalid parameter of the run: the tool
+                // must fail loudly whatever the library does with a healthy sink
+                lib_ok = !unwritable && matches!(ex.build, Res::Ok) && ex.results.iter().all(|r| r.is_ok());
                 lib_bytes = sink.bytes();
                 if let Some(Res::OkStats(s)) = ex.results.last() {
                     lib_counts = (s.video_frames, s.audio_frames);
